@@ -88,19 +88,15 @@ theorem cnot_generator_images (n c t : Nat) (hct : c ≠ t) :
     · simp [e1]
   · simp [PRow.cnot, Zq]
 
-/-! ## 2. Validity is preserved by every operation of the API that is proved so far, hence by every history of them -/
+/-! ## 2. Validity is preserved by every operation of the API, hence by every history -/
 
-/-- the operations whose `Valid`-preservation is proved for every n (everything except qubit removal / partial trace;
-    `tensor` is a binary operation outside `Op`) together with the argument conditions of the quantifier
-    (distinct control and target) -/
-def Proved : Tab.Op → Prop
+/-- argument condition of the quantifier: control and target of a two-qubit gate are distinct -/
+def WF : Tab.Op → Prop
   | .cnot c t => c ≠ t
   | .cz c t => c ≠ t
-  | .remove _ _ => False
-  | .ptrace _ _ => False
   | _ => True
 
-theorem op_preserves_valid (t t' : Tab) (op : Tab.Op) (out : Option (Bool × Bool)) (hop : Proved op)
+theorem op_preserves_valid (t t' : Tab) (op : Tab.Op) (out : Option (Bool × Bool)) (hop : WF op)
     (hv : t.Valid) (h : t.applyOp op = .ok (t', out)) : t'.Valid := by
   cases op with
   | h q => simp only [applyOp] at h; split at h <;> simp at h; rw [← h.1]; exact hGate_valid t q (by assumption) hv
@@ -126,14 +122,21 @@ theorem op_preserves_valid (t t' : Tab) (op : Tab.Op) (out : Option (Bool × Boo
   | resetY q i o => simp only [applyOp] at h; split at h <;> simp at h; rw [← h.1]; exact resetY_valid t q i o (by assumption) hv
   | insert p => simp only [applyOp] at h; split at h <;> simp at h; rw [← h.1]; exact insertQubit_valid t p (by assumption) hv
   | add => simp only [applyOp] at h; simp at h; rw [← h.1]; exact addQubit_valid t hv
-  | remove q o => exact absurd hop (by simp [Proved])
-  | ptrace k os => exact absurd hop (by simp [Proved])
+  | remove q o =>
+    simp only [applyOp] at h
+    cases hr : t.removeQubit? q o with
+    | error e => rw [hr] at h; simp at h
+    | ok t1 => rw [hr] at h; simp at h; rw [← h.1]; exact removeQubit?_valid t t1 q o hv hr
+  | ptrace k os =>
+    simp only [applyOp] at h
+    cases hr : t.partialTrace k os with
+    | error e => rw [hr] at h; simp at h
+    | ok t1 => rw [hr] at h; simp at h; rw [← h.1]; exact partialTrace_valid t t1 k os hv hr
 
-/-- **History theorem (partial: histories without qubit removal / partial trace).**  From a valid tableau of any size,
-    any finite history of gates, swaps, measurements (any outcomes), resets and qubit insertions that the API accepts
-    ends in a valid tableau.  Missing for the full statement: `remove_qubit`/`partial_trace`/`tensor` (their validity is
-    evaluated by the driver on every correspondence input, field `valid=`). -/
-theorem history_valid_partial (ops : List Tab.Op) (hops : ∀ op ∈ ops, Proved op) :
+/-- **History theorem.**  From a valid tableau of any size, any finite history of gates, swaps, measurements (any outcomes),
+    resets, qubit insertions, qubit removals and partial traces that the API accepts ends in a valid tableau
+    ("binary and symplectic with every destabilizer paired to its stabilizer"; binary-ness is by type). -/
+theorem history_valid (ops : List Tab.Op) (hops : ∀ op ∈ ops, WF op) :
     ∀ (t t' : Tab), t.Valid → t.runOps ops = .ok t' → t'.Valid := by
   induction ops with
   | nil => intro t t' hv h; simp [runOps] at h; rw [← h]; exact hv
@@ -146,10 +149,8 @@ theorem history_valid_partial (ops : List Tab.Op) (hops : ∀ op ∈ ops, Proved
         (op_preserves_valid t t1 op out (hops op List.mem_cons_self) hv h1) h
     · simp at h
 
-/-- the full statement (kept visible): every history over the whole API preserves validity -/
-def history_valid_statement : Prop :=
-  ∀ (ops : List Tab.Op), (∀ op ∈ ops, match op with | .cnot c t => c ≠ t | .cz c t => c ≠ t | _ => True) →
-    ∀ (t t' : Tab), t.Valid → t.runOps ops = .ok t' → t'.Valid
+/-- the tensor product of valid tableaux is valid (`tensor` is a binary operation outside `Op`) -/
+theorem tensor_valid (a b : Tab) (ha : a.Valid) (hb : b.Valid) : (Tab.tensor2 a b).Valid := tensor2_valid a b ha hb
 
 /-- `is_symplectic(table)` of utils.py decides exactly the invariant -/
 theorem isSymplectic_iff_valid (t : Tab) : t.isSymplectic = true ↔ t.Valid := Tab.isSymplectic_iff t
@@ -238,7 +239,7 @@ def ghz3 : Tab :=
 example : ghz3.Valid := (isSymplectic_iff_valid ghz3).mp (by decide)
 example : ghz3.pivot 0 = some 3 := by decide          -- a Z measurement of qubit 0 is random
 example : (ghz3.hGate 0).pivot 1 = some 3 := by decide
-example : (match ghz3.runOps [.h 0, .cnot 0 2, .meas 1 true, .insert 2, .resetY 0 true false, .swap 1 3] with
-    | .ok t' => t'.n == 4 && t'.isSymplectic | .error _ => false) = true := by decide
+example : (match ghz3.runOps [.h 0, .cnot 0 2, .meas 1 true, .insert 2, .resetY 0 true false, .swap 1 3, .remove 0 true] with
+    | .ok t' => t'.n == 3 && t'.isSymplectic | .error _ => false) = true := by decide +kernel
 
 end Graphiq.C07
